@@ -376,6 +376,31 @@ func (s *Script) Binary(data []byte) error {
 	return nil
 }
 
+// ShiftUpperBinary emits "U/S B/S": from Lower or Digit, U/S followed by the
+// Upper table's B/S code, the length and the bytes.  This is how encoders reach
+// binary shift from Digit without latching first.  ISO/IEC 24778 ends a shift
+// sequence in the mode from which it was invoked -- for the B/S that is the
+// (shifted) Upper table -- so the Script continues in Upper afterwards.  That
+// reading is the one embodied by the real-world sample aztec-1/dlusbs.png
+// (D/L "3333" U/S B/S "h3i3j" followed by the Upper codes of "ITIT").
+// It is an exotic construction: never used by AutoEncode.
+func (s *Script) ShiftUpperBinary(data []byte) error {
+	n := len(data)
+	if n < 1 || n > MaxBinaryShift {
+		return fmt.Errorf("aztec: binary shift length %d out of range 1..%d", n, MaxBinaryShift)
+	}
+	switch s.cur {
+	case Lower:
+		s.code(lowerUS)
+	case Digit:
+		s.code(digitUS)
+	default:
+		return fmt.Errorf("aztec: no U/S in table %v", s.cur)
+	}
+	s.cur = Upper
+	return s.Binary(data)
+}
+
 // FLGn emits FLG(n) (Punct code 0, via P/S when not in Punct) followed by the
 // 3-bit n and, for n = 1..6, n ECI digits in Digit-table coding (4 bits each,
 // digit d -> code d+2).  Nothing is added to the expected text: FLG(1..6) is an
